@@ -8,20 +8,31 @@ import shutil
 import subprocess
 import time
 import vlib
+import c02_faults
 
 RULE = ("TLC explores every interleaving of sender steps (AlignCheck/Park/Unpark/Enqueue), event-loop steps and "
         "batch time-outs of Align.tla for small constants (CutExact, CutTimersOK, NoEarlyApply, NoEarlyEnqueue, BatchOK); "
         "TLC-simulated schedules are forced onto a real operator.Operator through gates (operator.align.park/pass hooks, "
         "harness job/handler/timer); handler calls are compared with the model after every loop step and every reported "
         "checkpoint is read back by deploying a fresh operator from it; free-running seeded runs are recorded and "
+        "validated by AlignTrace.tla; fault arm (checks/c02_faults.py): the same under request cancellation, handler failures and "
+        "batch time-outs - Align.tla's fault environment model checked, simulated fault behaviours and the witness schedules of four "
+        "named deviations replayed on the real operator with per-caller contexts and a failing handler / job, free-running fault runs "
         "validated by AlignTrace.tla")
 
 INVS = ["CutExact", "CutTimersOK", "BatchOK", "AcksInOrder", "AckedByAll", "ParkedOK", "NoLossAtEnd", "TypeOK"]
 PROPS = ["NoEarlyApply", "NoEarlyEnqueue"]
 
 
+# fault environment of Align.tla switched off (see checks/c02_faults.py for the arm that switches it on)
+NOFAULT = dict(MaxCancel=0, MaxHFail=0, HonourCtx=False, FaultFrom="@{0}", Dev_CtxAwareWait=False, Dev_SwallowFlushError=False,
+               Dev_ReportWithoutCancel=False, Dev_IgnoreBarrierFlushError=False, Dev_SwallowEventFlushError=False,
+               Dev_SwallowWatermarkFlushError=False)
+
+
 def K(**kw):
     d = dict(NS=2, K=2, MaxScript=4, MaxSize=2, UseTimer=True, MaxFires=2, MaxW=2, MaxSkip=0, MaxLen=1000)
+    d.update(NOFAULT)
     d.update(kw)
     return d
 
@@ -121,7 +132,7 @@ def replay_cfg(c, consts, nbeh, seed, adversarial=0):
 
 
 def trace_consts(cfg):
-    return dict(NS=cfg["NS"], K=cfg["K"], MaxScript=cfg["MaxScript"], MaxSize=cfg["MaxSize"], UseTimer=cfg["UseTimer"],
+    return dict(NOFAULT, NS=cfg["NS"], K=cfg["K"], MaxScript=cfg["MaxScript"], MaxSize=cfg["MaxSize"], UseTimer=cfg["UseTimer"],
                 MaxFires=0, MaxW=cfg["MaxW"], MaxSkip=0, MaxLen=0)
 
 
@@ -243,6 +254,7 @@ def run(c):
                                  dict(NS=2, K=3, MaxScript=7, MaxSize=1, UseTimer=False, MaxW=3, Runs=200),
                                  dict(NS=3, K=3, MaxScript=9, MaxSize=4, UseTimer=True, MaxW=4, Runs=200))):
             traces(c, cfg, s + 50 + j, selftest=(j == 0))
+    c02_faults.run(c)
     c.assumptions.extend([
         "every runner delivers its barriers in increasing order, each id at most once; a runner may skip one id (MaxSkip) and stops after an error",
         "one operator, all event keys in one key group, DKV memtables at their default size (nothing is flushed)",
@@ -252,6 +264,9 @@ def run(c):
 
 def replay(c, path):
     payload = json.load(open(path))
+    if payload.get("arm") == "faults":
+        c02_faults.replay(c, payload)
+        return
     if payload.get("mode") == "align-trace":
         # the recorded run in the file documents what was observed; the replay records the same seeded runs again
         # on the current tree (same scripts, same jitter seeds) and validates the new recording
